@@ -15,6 +15,7 @@
 (*                                any shape is ONE value; it is what StopIteration carries and   *)
 (*                                what a delegating `yield from` evaluates to, unchanged per hop) *)
 (*   [k |-> "raise"]              raise KeyError                                                *)
+(*   [k |-> "rstop", v]           raise StopIteration(v): ends the generator like return v (3.4)                   *)
 (*   [k |-> "yf", b, then]        then = "":       r = yield from <new generator with body Bodies[b]> ; record <<"yf", r>> *)
 (*                                then = "ret":    the same, followed by  return r               *)
 (*                                then = "unpack": q, r = yield from ... ; record <<"un", [q, r]>> (TypeError / ValueError *)
@@ -172,6 +173,10 @@ StepF(s) ==
        [] x.k = "tryf"  -> Go([G EXCEPT ![c].ks = Append(Append(rest, [k |-> "tryf", fin |-> x.fin]), SeqF(x.body))])
        [] x.k = "ret"   -> Go([G EXCEPT ![c].ks = rest, ![c].comp = [t |-> "ret", v |-> IntV(x.v)]])
        [] x.k = "retv"  -> Go([G EXCEPT ![c].ks = rest, ![c].comp = [t |-> "ret", v |-> x.val]])
+       \* raise StopIteration(v) in a generator body (Python 3.4, before PEP 479): the generator ends exactly as by
+       \* `return v` - pending finally blocks run, the caller of next() sees StopIteration(v), a delegating yield from
+       \* evaluates to v
+       [] x.k = "rstop" -> Go([G EXCEPT ![c].ks = rest, ![c].comp = [t |-> "ret", v |-> IntV(x.v)]])
        [] x.k = "raise" -> Go([G EXCEPT ![c].ks = rest, ![c].comp = [t |-> "exc", v |-> StrV("KeyError")]])
        [] x.k = "yf"    -> \* create the child; it is started with next(), whatever was sent to the parent before
                            Go(Append([G EXCEPT ![c].ks = rest, ![c].sub = Len(G) + 1, ![c].ythen = x.then], [NewGen(x.b) EXCEPT !.st = "running", !.par = c]))
